@@ -1893,6 +1893,8 @@ class MultiSpeciesLattice(Lattice):
             positions=unit_cell_positions,
             pairs=new_pairs,
         )
+        # keep the order of the given `simple_lattice` (as IrregularLattice and HelicalLattice do)
+        self.order = self._simple_order_to_self_order(simple_lattice.order)
 
     def save_hdf5(self, hdf5_saver, h5gr, subpath):
         super().save_hdf5(hdf5_saver, h5gr, subpath)
